@@ -190,6 +190,15 @@ fn chunks_of(g: &Guard) -> BTreeSet<usize> {
 }
 
 fn run(hist: &[Op]) -> Outcome {
+    struct Infl<'a>(&'a [Op]);
+    fn fmt(p: *const ()) -> String {
+        format!("replaycase=<<{}>>", hist_text(unsafe { &*(p as *const Infl<'_>) }.0))
+    }
+    let infl = Infl(hist);
+    vcore::crash::with_inflight(&infl, fmt, || run_inner(hist))
+}
+
+fn run_inner(hist: &[Op]) -> Outcome {
     st(|s| {
         *s = State { mode: Mode::Normal, live: BTreeMap::new(), allocs: 0, deallocs: 0, refused: 0, panicked: 0, errors: Vec::new() };
     });
@@ -425,6 +434,7 @@ fn main() {
     let args: Vec<String> = std::env::args().collect();
     match args.get(1).map(String::as_str).unwrap_or("") {
         "check" => {
+            let prop = arg(&args, "--prop").unwrap_or_else(|| "C19".into());
             let thorough = arg(&args, "--tier").as_deref() == Some("thorough");
             let secs: u64 = arg(&args, "--secs").and_then(|s| s.parse().ok()).unwrap_or(if thorough { 1500 } else { 50 });
             let depth: usize = arg(&args, "--depth").and_then(|s| s.parse().ok()).unwrap_or(if thorough { 8 } else { 6 });
@@ -507,7 +517,7 @@ fn main() {
             viols.sort_by_key(|v| v.0.len());
             for (h, s, m) in &viols {
                 let vj = J::obj()
-                    .set("prop", "C19")
+                    .set("prop", prop.as_str())
                     .set("cfg", "BumpPool<Track> (std Mutex, single thread)")
                     .set("params", "")
                     .set("history", hist_text(h))
@@ -537,7 +547,7 @@ fn main() {
                 .set("alphabet_size", alpha.len())
                 .set("vacuity_counters", vac);
             let space = J::obj()
-                .set("property_id", "C19")
+                .set("property_id", prop.as_str())
                 .set("tier", if thorough { "thorough" } else { "quick" })
                 .set("seed", 0)
                 .set("level", "model_checking")
